@@ -51,7 +51,7 @@ fn check(ctx: &Ctx, t: &dyn Table, c: &Ctor, ops: &[Op], what: &str) {
     }
     ctx.distinct(fnv(&img));
     let want = t.reference(c, ops).image;
-    if img != want {
+    if !tables::eq_judged(t, ops, &img, &want) {
         let key = t
             .quirks()
             .iter()
@@ -115,7 +115,7 @@ pub fn entry_layer(ctx: &'static Ctx) {
                 // pairs of fields over the extremes (deviation bound 2)
                 let pair_cap = if quick { 10 } else { usize::MAX };
                 for i in 0..fields.len() {
-                    for j in (i + 1)..fields.len().min(i + 1 + pair_cap) {
+                    for j in (i + 1)..fields.len().min((i + 1).saturating_add(pair_cap)) {
                         for x in extremes(fields[i]) {
                             for y in extremes(fields[j]) {
                                 progs.push((mk(Fill::b(2).with(i as u8, x).with(j as u8, y)), format!("fields {} = {:#x}, {} = {:#x}", i, x, j, y)));
